@@ -35,10 +35,7 @@ KNOWN_CAUGHT = "C02-caught-failure-untracked"
 
 def classify(deep_hit, live=None, query=None, result=None):
     """known findings are recognised by their specific trigger"""
-    if deep_hit:
-        # the recursion limit was hit and a formula caught it (the evaluation still returned a
-        # value): the value is depth- and cache-dependent (same root cause as C01-caught-deep)
-        return KNOWN_DEEP
+    # (no formula of this vocabulary can catch the recursion-limit error; that finding is C01's)
     if live is not None and result is not None and result.startswith("ok"):
         # the held value is the value of the `except` branch of a formula that caught the failure
         # of a callee: modelx records no dependency on a callee that failed (the failed element
@@ -48,7 +45,7 @@ def classify(deep_hit, live=None, query=None, result=None):
         except Exception:
             return None
         import re
-        m = re.search(r"except Exception:\s+return (-\d+)", src)
+        m = re.search(r"except \(NameError, AttributeError, TypeError\):\s+return (-\d+)", src)
         if m and result == "ok " + m.group(1):
             return KNOWN_CAUGHT
     return None
